@@ -188,6 +188,18 @@ class NodeRun:
         self.found = cand
         return True
 
+    def restart(self):
+        """Process death and a new start of the node on the same store; the peers connect again."""
+        self.node = fakenet.Node.restarted(self.node, self.genesis, self.clock)
+        for i, name in enumerate(self.peers):
+            self.node.connect(name, host="10.0.0.%d" % (i + 2), port=5000 + i, direction="INCOMING" if i % 2 == 0 else "OUTGOING",
+                              their_port=3000 + i, nonce=100 + i)
+        for name in self.peers:
+            self.node.take_sent(name)
+        self.mw = None
+        self.events.append({"op": "restart", "now": self.clock(), "post": self.post()})
+        self.labels.append("restart")
+
     def trace(self):
         return {"id": self.tid, "genesis": self.w.observe(self.genesis), "peers": self.peers, "events": self.events}
 
